@@ -601,23 +601,12 @@ func (r *collection) addService(service any, lifetime Lifetime, opts ...AddOptio
 				resultFieldName: field.Name,
 			}
 
-			// Register the field descriptor
-			if err := r.registerDescriptor(fieldDescriptor); err != nil {
-				return &RegistrationError{
-					ServiceType: field.Type,
-					Operation:   "register result object field",
-					Cause:       err,
-				}
-			}
-
 			family = append(family, fieldDescriptor)
-			for _, member := range family {
-				member.family = family
-			}
 		}
 
-		// Don't register the result object type itself
-		return nil
+		// Register the field descriptors, all or none.
+		// The result object type itself is not registered.
+		return r.registerFamily(family, "register result object field")
 	}
 
 	// Handle multiple return types (not Out structs)
@@ -658,21 +647,11 @@ func (r *collection) addService(service any, lifetime Lifetime, opts ...AddOptio
 					typeDescriptor.Key = nil
 				}
 
-				// Register each type descriptor
-				if err := r.registerDescriptor(typeDescriptor); err != nil {
-					return &RegistrationError{
-						ServiceType: ret.Type,
-						Operation:   "register multi-return type",
-						Cause:       err,
-					}
-				}
-
 				family = append(family, typeDescriptor)
-				for _, member := range family {
-					member.family = family
-				}
 			}
-			return nil
+
+			// Register the type descriptors, all or none
+			return r.registerFamily(family, "register multi-return type")
 		}
 	}
 
@@ -712,27 +691,63 @@ func (r *collection) addService(service any, lifetime Lifetime, opts ...AddOptio
 				paramFields:      descriptor.paramFields,
 			}
 
-			// Register the interface descriptor
-			if err := r.registerDescriptor(interfaceDescriptor); err != nil {
-				return &RegistrationError{
-					ServiceType: interfaceType,
-					Operation:   "register as interface",
-					Cause:       err,
-				}
-			}
-
 			family = append(family, interfaceDescriptor)
-			for _, member := range family {
-				member.family = family
-			}
 		}
 
-		// If As is specified, we only register under interface types, not the concrete type
-		return nil
+		// If As is specified, we only register under interface types, not the
+		// concrete type. Register the interface descriptors, all or none.
+		return r.registerFamily(family, "register as interface")
 	}
 
 	// Register the descriptor normally
 	return r.registerDescriptor(descriptor)
+}
+
+// registerFamily registers the descriptors created by one registration call
+// (one per result-object field, return value or interface alias). A
+// registration is atomic: if any of them collides with an existing service, or
+// with another one of the same call, nothing is registered.
+func (r *collection) registerFamily(family []*Descriptor, operation string) error {
+	pending := make(map[TypeKey]struct{}, len(family))
+	for _, descriptor := range family {
+		if descriptor.Key == nil && descriptor.Group != "" {
+			continue // group members never collide
+		}
+
+		key := TypeKey{Type: descriptor.Type, Key: descriptor.Key}
+		_, exists := r.services[key]
+		if _, dup := pending[key]; dup || exists {
+			var cause error = &AlreadyRegisteredError{ServiceType: descriptor.Type}
+			if descriptor.Key != nil {
+				cause = &RegistrationError{
+					ServiceType: descriptor.Type,
+					Operation:   "register",
+					Cause:       cause,
+				}
+			}
+
+			return &RegistrationError{
+				ServiceType: descriptor.Type,
+				Operation:   operation,
+				Cause:       cause,
+			}
+		}
+		pending[key] = struct{}{}
+	}
+
+	for _, descriptor := range family {
+		if err := r.registerDescriptor(descriptor); err != nil {
+			return &RegistrationError{
+				ServiceType: descriptor.Type,
+				Operation:   operation,
+				Cause:       err,
+			}
+		}
+
+		descriptor.family = family
+	}
+
+	return nil
 }
 
 // registerDescriptor registers a descriptor in the appropriate collections based on its type.
